@@ -44,8 +44,8 @@ func init() {
 		Level:    "fault_enumeration",
 		Rule: "sequences of 6..120 (thorough ..400) records of every kind the node writes (EventDataRoundState, peer/own ProposalMessage, BlockPartMessage, VoteMessage, timeouts, EndHeightMessage at increasing heights) written through the real baseWAL.Write/WriteSync " +
 			"into a real autofile.Group on disk, head size limit drawn from 200 B up to 'never', the group's periodic head-size check performed at tape-chosen instants between writes (also between the write and the flush of a WriteSync); 1 run in 6 uses block parts of 8..45 KB so that the group's 40 KB write buffer spills mid-record; " +
-			"then on the files on disk: truncation of the concatenation (= of the newest file for the last offsets) at EVERY offset and a single-byte change at EVERY offset (header bytes: up to 4 values, payload bytes: 1 value) when that fits the per-run budget of damaged reads (quick 6000, thorough 40000; a third of that for the large-part logs), " +
-			"else every record and file boundary +-9 bytes plus a seeded sample; a few cuts per run are also read through a freshly opened group in which the files after the cut are absent. One oracle evaluation = one damaged (or intact) log read back. " +
+			"then on the files on disk: truncation of the concatenation (= of the newest file for the last offsets) at EVERY offset and a single-byte change at EVERY offset (header bytes: up to 4 values, payload bytes: 1 value) when that fits the per-run budget of damaged reads (quick 6000, thorough 40000, less for logs with many or large records: the budget is capped by the decode work), " +
+			"else +-9 bytes around every marker, every file boundary, the end of the log and as many other record boundaries as fit, plus a seeded sample; a few cuts per run are also read through a freshly opened group in which the files after the cut are absent. One oracle evaluation = one damaged (or intact) log read back. " +
 			"Non-trivial: >= 3 record kinds, >= 2 end-height markers, >= 200 damaged reads. Fingerprint: record kinds/sizes, file layout, per-class counts of read-back results.",
 		Real: []string{"consensus.baseWAL (NewWAL, Write, WriteSync, SearchForEndHeight)", "consensus.WALEncoder / WALDecoder / DataCorruptionError", "autofile.Group (buffered Write, Flush, RotateFile, readGroupInfo, NewReader) and GroupReader.Read across rotated files", "autofile.AutoFile on real files",
 			"ser codec of TimedWALMessage and of every consensus message type", "consensus msgInfo/timeoutInfo records (through the verif hook constructors)"},
@@ -60,7 +60,7 @@ func init() {
 			"Total-size pruning of old WAL files (checkTotalSizeLimit) is switched off; writer restarts on an existing log are not generated.",
 			"CRC32C detects every single-byte change; the oracle does not rely on it, but an undetected change that decodes to an unwritten message would be reported as a violation (probability 2^-32 per length-field change).",
 		},
-		QuickRuns: 160, QuickBudget: 55 * time.Second,
+		QuickRuns: 240, QuickBudget: 50 * time.Second,
 		ThoroughRuns: 4000, ThoroughBudget: 18 * time.Minute,
 		RunsPerProcess: 60,
 		RunTimeout:     300 * time.Second,
@@ -311,6 +311,9 @@ type state struct {
 	stop      bool
 	// index of the first record the intact log could not be read back to (-1: none)
 	unreadableFrom int
+	// marker searches open every file from the newest down: on logs with many
+	// files only every searchStride-th damaged read is followed by searches
+	searchStride int
 }
 
 func run(c *kernel.Ctx) {
@@ -517,6 +520,25 @@ func run(c *kernel.Ctx) {
 		L = recs[st.unreadableFrom].Off
 		c.Probe("enumeration_limited_to_cuts_before_unreadable_record")
 	}
+	// the cost of one read-back grows with the number of records (and a marker
+	// search with the number of files it has to open): cap the reads of a run
+	// by the decode work they amount to
+	workCap := 400000
+	if c.Tier == kernel.Thorough {
+		workCap = 3000000
+	}
+	perRead := len(recs)/2 + 1
+	if big {
+		perRead *= 8
+	}
+	if maxReads := workCap / perRead; budget > maxReads {
+		budget = maxReads
+	}
+	nFiles := len(lay.names)
+	st.searchStride = 1
+	if nFiles > 5 {
+		st.searchStride = nFiles / 3
+	}
 	var cuts, flips []int
 	if 2*L+L/8 <= budget {
 		for x := 0; x < L; x++ {
@@ -531,21 +553,34 @@ func run(c *kernel.Ctx) {
 				sel[x] = true
 			}
 		}
-		for _, r := range recs {
+		window := func(x int) {
 			for d := -9; d <= 9; d++ {
-				add(r.Off + d)
+				add(x + d)
 			}
+		}
+		// always: around every marker, every file boundary and the end of the log
+		for _, m := range st.markers {
+			window(m.Off)
+			window(m.End)
 		}
 		for _, s := range lay.start {
-			for d := -9; d <= 9; d++ {
-				add(s + d)
+			window(s)
+		}
+		window(L)
+		// then around the other record boundaries, in seeded order, while there is room
+		// (one selected offset costs one cut and ~1.4 byte changes)
+		order := make([]int, len(recs))
+		for i := range order {
+			order[i] = i
+		}
+		dmg.Shuffle(len(order), func(i, j int) { order[i], order[j] = order[j], order[i] })
+		for _, i := range order {
+			if len(sel)*24/10 >= budget*8/10 {
+				break
 			}
+			window(recs[i].Off)
 		}
-		for d := 1; d <= 9; d++ {
-			add(L - d)
-		}
-		room := budget/2 - len(sel)
-		for k := 0; k < room; k++ {
+		for k := budget*10/24 - len(sel); k > 0; k-- {
 			add(dmg.Int(L))
 		}
 		for x := range sel {
@@ -557,15 +592,42 @@ func run(c *kernel.Ctx) {
 	}
 
 	// ---- truncations, from the end towards the start (files only ever shrink)
-	nCut := 0
+	markerEdge := map[int]bool{}
+	for _, m := range st.markers {
+		markerEdge[m.Off], markerEdge[m.End] = true, true
+	}
+	for _, s := range lay.start {
+		markerEdge[s] = true
+	}
+	nCut, nFull := 0, 0
+	emptiedFrom := len(lay.names)
 	for i := len(cuts) - 1; i >= 0 && !st.stop; i-- {
 		x := cuts[i]
-		if err := lay.truncateAt(x); err != nil {
+		f := lay.fileOf(x)
+		for j := f + 1; j < emptiedFrom; j++ {
+			if err := os.Truncate(lay.names[j], 0); err != nil {
+				c.HarnessTrouble("truncate: %v", err)
+				return
+			}
+		}
+		if f+1 < emptiedFrom {
+			emptiedFrom = f + 1
+		}
+		keep := x - lay.start[f]
+		if keep > len(lay.data[f]) {
+			keep = len(lay.data[f])
+		}
+		if err := os.Truncate(lay.names[f], int64(keep)); err != nil {
 			c.HarnessTrouble("truncate: %v", err)
 			return
 		}
 		c.Fault("truncation")
-		full := bound[x] || bound[x-1] || bound[x+1] || i%64 == 0
+		// all markers at the edges of marker records and of files (and now and
+		// then elsewhere); the two markers around the cut otherwise
+		full := (markerEdge[x] || i%97 == 0) && (nFiles <= 8 || nFull < 60)
+		if full {
+			nFull++
+		}
 		rd.check(damage{kind: "truncation", x: x, pick: i}, full)
 		c.Evals(1)
 		nCut++
